@@ -135,8 +135,15 @@ def check_activity_guards(ctx, rule="CMP-activity"):
   for (bv, ev, st) in pairs:
     tests = []
     for g in own_nodes(pe.node):
-      if isinstance(g, ast.If) and tname in names_in(g.test) and ({bv, ev} & names_in(g.test)) and exits_after(g):
-        tests.append(g)
+      if isinstance(g, ast.If) and tname in names_in(g.test) and ({bv, ev} & names_in(g.test)):
+        if exits_after(g):
+          tests.append(g)
+        elif not g.orelse or (isinstance(g.orelse[-1], (ast.Continue, ast.Return)) and not exits_after(g)):
+          # the positive form: `if <active>: <use the element / step>` (nothing else happens when the test fails)
+          neg = ast.If(test=ast.UnaryOp(op=ast.Not(), operand=g.test), body=g.body, orelse=[])
+          ast.copy_location(neg, g)
+          ast.fix_missing_locations(neg)
+          tests.append(neg)
     what = "animation step" if "anim" in bv or "anim" in unparse(st.value) else "element"
     if not tests:
       ctx.bad(rule, f"{pe.qualname}|{what} interval ({bv}, {ev})", ctx.where(pe.module, st),
@@ -364,29 +371,55 @@ def check_prune_predicate(ctx, f: FuncInfo, has_region_atom: bool, rule="CMP-pru
   from ..consteval import FuncEval, Raised, _CallingConstEval
   ix = ctx.ix
   ctx.unit(f.module)
-  # the association variable: the local that first receives <element>.get_region()
-  first = None
-  for st in own_nodes(f.node):
-    if isinstance(st, ast.Assign) and len(st.targets) == 1 and isinstance(st.targets[0], ast.Name) and "get_region()" in unparse(st.value):
-      if first is None or st.lineno < first.lineno:
-        first = st
-  if first is None:
-    raise AnalysisError(f"{f.qualname}: associated-region assignment not found")
-  av = first.targets[0].id
-  own_txt = next(unparse(c) for c in ast.walk(first.value) if isinstance(c, ast.Call) and isinstance(c.func, ast.Attribute) and c.func.attr == "get_region")
-  # the pruning test: an If returning None whose test mentions the association variable and a region parameter / has_children
-  guards = [g for g in own_nodes(f.node) if isinstance(g, ast.If) and av in names_in(g.test) and isinstance(g.body[-1], ast.Return)
-            and (g.body[-1].value is None or (isinstance(g.body[-1].value, ast.Constant) and g.body[-1].value.value is None))
-            and ("has_children" in unparse(g.test) or any(p_ in names_in(g.test) for p_ in f.params if "region" in p_))]
-  if len(guards) != 1:
-    raise AnalysisError(f"{f.qualname}: expected one region-pruning guard, found {len(guards)}")
-  g = guards[0]
+  # roles are read off the pruning test: an `if` that returns None and whose condition (locals read through, the
+  # tests of the ifs around it included) compares a local with a region parameter by identity - that local is the
+  # associated region, the parameter the selected region
+  region_params = [p_ for p_ in f.params if "region" in p_]
+  found = []
+  for g in own_nodes(f.node):
+    if not (isinstance(g, ast.If) and isinstance(g.body[-1], ast.Return)
+            and (g.body[-1].value is None or (isinstance(g.body[-1].value, ast.Constant) and g.body[-1].value.value is None))):
+      continue
+    raw = [(t, pol) for t, pol in _m.enclosing_conditions(g, f.node)] + [(g.test, True)]
+
+    def compares(t):
+      out = []
+      for c in ast.walk(t):
+        if isinstance(c, ast.Compare) and len(c.ops) == 1 and isinstance(c.ops[0], (ast.Is, ast.IsNot, ast.Eq, ast.NotEq)):
+          for a, b in ((c.left, c.comparators[0]), (c.comparators[0], c.left)):
+            if isinstance(a, ast.Name) and a.id not in f.params and isinstance(b, ast.Name) and b.id in region_params:
+              out.append((a.id, b.id))
+      return out
+    # the comparison may sit in the test itself or in a local the test reads (is_selected = ... ; if not is_selected: return None)
+    roles = [r for t, _ in raw for r in compares(t)] or [r for t, _ in raw for r in compares(_m.inline_locals_deep(f.node, t))]
+    if roles:
+      av_, sel_ = roles[0]
+      tests = [(_m.inline_locals_deep(f.node, t, keep={av_}), pol) for t, pol in raw]
+      found.append((g, av_, sel_, tests))
+  found = [x for k, x in enumerate(found) if not any(y[0] is x[0] for y in found[:k])]
+  if len(found) != 1:
+    raise AnalysisError(f"{f.qualname}: expected one region-pruning guard (an `if ...: return None` that compares a local with a region parameter), found {len(found)}")
+  g, av, sel, tests = found[0]
   # association = own region if there is one, else the inherited region parameter: the statements that write the
-  # variable before the guard are evaluated for own / inherited in {absent, present}
-  blk = parent(first)
-  stmts_all = getattr(blk, "body", [])
-  writers = [st for st in stmts_all if st.lineno < g.lineno and any(isinstance(n, ast.Name) and n.id == av and isinstance(n.ctx, ast.Store) for n in ast.walk(st))]
-  inh_params = [p_ for p_ in f.params if p_ in {n.id for st in writers for n in ast.walk(st) if isinstance(n, ast.Name)} and "region" in p_]
+  # variable (and the locals they read) before the guard are evaluated for own / inherited in {absent, present}
+  # (the statements that precede the outermost `if` of the guard in its own statement list)
+  top = g
+  while isinstance(parent(top), ast.If):
+    top = parent(top)
+  blk = parent(top)
+  holder = next((getattr(blk, fld) for fld in ("body", "orelse", "finalbody") if isinstance(getattr(blk, fld, None), list) and any(x is top for x in getattr(blk, fld))), [])
+  stmts_all = holder[:next(k for k, x in enumerate(holder) if x is top)] if holder else []
+  need, writers = {av}, []
+  for st in reversed(stmts_all):
+    stored = {n.id for n in ast.walk(st) if isinstance(n, ast.Name) and isinstance(n.ctx, ast.Store)}
+    if stored & need and isinstance(st, (ast.Assign, ast.AnnAssign, ast.If)):
+      writers.insert(0, st)
+      need |= {n.id for n in ast.walk(st) if isinstance(n, ast.Name) and isinstance(n.ctx, ast.Load) and n.id not in f.params}
+  owns = [unparse(c) for st in writers for c in ast.walk(st) if isinstance(c, ast.Call) and isinstance(c.func, ast.Attribute) and c.func.attr == "get_region"]
+  if not writers or not owns:
+    raise AnalysisError(f"{f.qualname}: associated-region assignment not found")
+  first, own_txt = writers[0], owns[0]
+  inh_params = [p_ for p_ in region_params if p_ != sel and p_ in {n.id for st in writers for n in ast.walk(st) if isinstance(n, ast.Name)}]
   ok = len(inh_params) == 1
   detail = ""
   if ok:
@@ -403,19 +436,11 @@ def check_prune_predicate(ctx, f: FuncInfo, has_region_atom: bool, rule="CMP-pru
           detail = f"own={o}, inherited={i_}: associated region {env.get(av)}, expected {want}"
     except (NotConst, Raised) as e:
       raise AnalysisError(f"{f.qualname}: the association statements could not be evaluated ({e})")
-  ctx.check(ok, rule, f"{f.qualname}|association = own region else inherited", ctx.where(f.module, first), f"`{short(first.value)}`",
+  ctx.check(ok, rule, f"{f.qualname}|association = own region else inherited", ctx.where(f.module, first), f"`{short(first)}`",
             f"the associated region must be the element's own region if it has one, else the inherited region parameter ({detail or 'no single inherited-region parameter is read'})")
-  # the whole condition under which the element is pruned: the guard's own test and the tests of the ifs around it
-  outer = [(t, pol) for t, pol in _m.enclosing_conditions(g, f.node) if av in names_in(t) or "has_children" in unparse(t)]
-  all_tests = [t for t, _ in outer] + [g.test]
-  sel = None
-  for c in (x for t in all_tests for x in ast.walk(t)):
-    if isinstance(c, ast.Compare) and len(c.ops) == 1 and isinstance(c.ops[0], (ast.Is, ast.IsNot, ast.Eq, ast.NotEq)):
-      for a, b in ((c.left, c.comparators[0]), (c.comparators[0], c.left)):
-        if unparse(a) == av and isinstance(b, ast.Name) and b.id in f.params:
-          sel = b.id
-  if sel is None:
-    raise AnalysisError(f"{f.qualname}: the pruning guard does not compare the associated region with a selected-region parameter")
+  outer = [(t, pol) for t, pol in tests[:-1] if av in names_in(t) or "has_children" in unparse(t)]
+  gtest = tests[-1][0]
+  all_tests = [t for t, _ in outer] + [gtest]
   elem = f.params[-1]
   for c in (x for t in all_tests for x in ast.walk(t)):
     if isinstance(c, ast.Call) and isinstance(c.func, ast.Attribute) and c.func.attr == "has_children":
@@ -439,7 +464,7 @@ def check_prune_predicate(ctx, f: FuncInfo, has_region_atom: bool, rule="CMP-pru
       continue
     env = {"R": R, "S": S, "C": C, "N": N}
     try:
-      got = all(_m.eval_bool(t, leaf, lambda a: env[a]) == pol for t, pol in outer) and _m.eval_bool(g.test, leaf, lambda a: env[a])
+      got = all(_m.eval_bool(t, leaf, lambda a: env[a]) == pol for t, pol in outer) and _m.eval_bool(gtest, leaf, lambda a: env[a])
     except ValueError as e:
       raise AnalysisError(f"{f.qualname}: pruning test has a part outside the expected atoms: `{e}`")
     want = prune_oracle(R, S, C, N)
